@@ -104,6 +104,28 @@ CHECKS = {
         "No NaN failures here (C03); 'reported result' of the garbage relation excludes the raw per-realization arrays; 1e-12 relative row matching.",
         "DESIGN.md §3 C06",
     ),
+    "C18": (
+        "exploration",
+        "Hypothesis strategy over valid (and deliberately inconsistent) configuration dictionaries; canonical-form formulas, generic frozen-ness walk, dump/JSON round-trip oracle",
+        "Random configuration dictionaries touching every field of every sub-config (scalars to broadcast, un-normalised and mixed-sign weights, "
+        "thresholds above the counts, relative perturbations, sampler/filter/estimator maps, optimizer options as dict/list/None, transforms in the "
+        "validation context): the validated object is compared with the canonical form by formula, every reachable model must reject setattr and every "
+        "reachable array must be read-only and reject in-place writes (also on the re-validated copies), validate(cfg) must be cfg, and validating the "
+        "dumped dict and its JSON form must reproduce cfg field by field; inconsistent bounds/shapes must be rejected.",
+        "Dumped forms are re-validated without context (as the external hand-off does); plain option dicts/lists are not required to be frozen.",
+        "DESIGN.md §3 C18",
+    ),
+    "C19": (
+        "model_checking",
+        "exhaustive enumeration of registration sequences against an ordered-list reference registry with full observation after every step; Hypothesis rule-based state machine for long histories",
+        "All sequences of up to 3 (quick) / 5 (thorough) add_plugin operations (3 fake plug-ins with overlapping method sets, one non-discoverable, case "
+        "variants, a name clash, normal/prioritized) on two managers for type 'optimizer' and up to 2 for the other five types; after every step all 16 "
+        "lookups (get_plugin and is_supported; bare, plugin/method, unknown) and plugins() order are compared on both managers with the model, so "
+        "stale caches, case handling, discovery flags, duplicate rejection and cross-manager leakage are decided for every reachable registry state in "
+        "the bound; a state machine adds 40-step random histories with interleaved lookups.",
+        "The initial registry of a fresh manager is the model's baseline; fake plug-ins lower-case method names like the built-in ones.",
+        "DESIGN.md §3 C19",
+    ),
 }
 
 NOT_YET = "check not built yet in this session (planned, see DESIGN.md §3)"
